@@ -816,6 +816,16 @@ func (rn *Runner) Run() {
 	opts := []mail.Option{
 		mail.WithDialContextFunc(dial), mail.WithTimeout(timeout), mail.WithHELO("client.test"),
 	}
+	// variant "setters": what the other variants pass as options of NewClient is set through the setter methods
+	// of the Client after construction
+	var post []func(*mail.Client)
+	add := func(opt mail.Option, set func(*mail.Client)) {
+		if cfg.Variant == "setters" {
+			post = append(post, set)
+			return
+		}
+		opts = append(opts, opt)
+	}
 	implicitHost := ""
 	if cfg.Policy == "implicit" {
 		// Implicit TLS is only in effect with the library's own dialer: real TCP on a loopback address of
@@ -841,37 +851,41 @@ func (rn *Runner) Run() {
 			}
 		}()
 		implicitHost = ip
-		opts = []mail.Option{mail.WithTimeout(timeout), mail.WithHELO("client.test"), mail.WithSSLPort(cfg.Fallback),
-			mail.WithTLSConfig(&tls.Config{ServerName: "mail.example.test", MinVersion: tls.VersionTLS12})}
+		opts = []mail.Option{mail.WithTimeout(timeout), mail.WithHELO("client.test")}
+		tc := &tls.Config{ServerName: "mail.example.test", MinVersion: tls.VersionTLS12}
+		add(mail.WithSSLPort(cfg.Fallback), func(c *mail.Client) { c.SetSSLPort(true, cfg.Fallback) })
+		add(mail.WithTLSConfig(tc), func(c *mail.Client) { _ = c.SetTLSConfig(tc) })
 	} else if cfg.Fallback {
-		opts = append(opts, mail.WithTLSPortPolicy(policy)) // 587 with fallback to 25 when opportunistic
+		add(mail.WithTLSPortPolicy(policy), func(c *mail.Client) { c.SetTLSPortPolicy(policy) }) // 587 with fallback to 25 when opportunistic
 	} else if cfg.Variant == "customport" { // the port is chosen first (no TLS yet), the policy is tightened later through the port-policy setter
 		opts = append(opts, mail.WithPort(2525), mail.WithTLSPolicy(mail.NoTLS))
 	} else if cfg.Redial {
 		opts = append(opts, mail.WithTLSPolicy(mail.NoTLS)) // the policy of the scenario is set after the first dial
 	} else {
-		opts = append(opts, mail.WithTLSPolicy(policy))
+		add(mail.WithTLSPolicy(policy), func(c *mail.Client) { c.SetTLSPolicy(policy) })
 	}
 	if cfg.Variant == "sslflag" { // implicit TLS requested, but the transport comes from the caller's dial function
 		opts = append(opts, mail.WithSSL())
 	}
 	if at, ok := authTypes[cfg.Authtype]; ok {
-		opts = append(opts, mail.WithSMTPAuth(at), mail.WithUsername(User), mail.WithPassword(Pass))
+		add(mail.WithSMTPAuth(at), func(c *mail.Client) { c.SetSMTPAuth(at) })
+		add(mail.WithUsername(User), func(c *mail.Client) { c.SetUsername(User) })
+		add(mail.WithPassword(Pass), func(c *mail.Client) { c.SetPassword(Pass) })
 	}
 	if cfg.Debug {
 		tap := &logTap{r: r, scan: scan}
+		var lg maillog.Logger = tap
 		switch cfg.Logger {
 		case "std":
-			opts = append(opts, mail.WithLogger(maillog.New(tap, maillog.LevelDebug)))
+			lg = maillog.New(tap, maillog.LevelDebug)
 		case "json":
-			opts = append(opts, mail.WithLogger(maillog.NewJSON(tap, maillog.LevelDebug)))
-		default:
-			opts = append(opts, mail.WithLogger(tap))
+			lg = maillog.NewJSON(tap, maillog.LevelDebug)
 		}
-		opts = append(opts, mail.WithDebugLog())
+		add(mail.WithLogger(lg), func(c *mail.Client) { c.SetLogger(lg) })
+		add(mail.WithDebugLog(), func(c *mail.Client) { c.SetDebugLog(true) })
 	}
 	if cfg.Logauth {
-		opts = append(opts, mail.WithLogAuthData())
+		add(mail.WithLogAuthData(), func(c *mail.Client) { c.SetLogAuthData(true) })
 	}
 	host := "mail.example.test"
 	switch cfg.Hostkind {
@@ -905,6 +919,9 @@ func (rn *Runner) Run() {
 	}
 	if cfg.Variant == "customport" {
 		c.SetTLSPortPolicy(policy)
+	}
+	for _, set := range post {
+		set(c)
 	}
 
 	sendRet := func(op string, err error, elapsed string) {
